@@ -589,8 +589,27 @@ def run(ck: vlib.Check):
         lines = [f"C {f} {d}" for f, d in grid + big]
         for s in streams:
             lines.append(f"R {s['flat']} {s['dim']} {s['nobj']} {len(s['vals'])} " + " ".join("%016x" % x for x in s["vals"]))
+        # histories in ONE process (after everything above): a consistent pair of a dimension, used for reading, and THEN pairs of the same
+        # dimension whose packed length is too small - every pair is judged on its own, whatever readers existed before
+        hist = []
+        for d in (2, 3, 5, 6, 7, 11):
+            vals = [(0x3FF0000000000000 + k) for k in range(tri(d))]
+            hist.append(f"R {tri(d)} {d} 1 {tri(d)} " + " ".join("%016x" % x for x in vals))
+            hist += [f"C {tri(d) - 1} {d}", f"C {tri(d - 1)} {d}", f"C 1 {d}", f"C {tri(d)} {d}"]
+        n_main = len(lines)
+        lines = lines + hist
         rc, so, se = run_native(exe, lines, timeout=3000)
         recs = [l for l in so.splitlines() if l and l[0] in "CR"]
+        for l, rec in zip(lines[n_main:], recs[n_main:]):
+            a = l.split(); b = rec.split()
+            if a[0] == "C":
+                ck.case(["ctor-after-readers", int(a[1]), int(a[2])])
+                want = "A" if tri(int(a[2])) <= int(a[1]) else "X"
+                if b[3] != want:
+                    ck.violation(f"C16:ctor-after-valid-reader:flat={a[1]}:dim={a[2]}", f"after a reader ({tri(int(a[2]))},{a[2]}) had been built and used in the same process, "
+                                 f"constructor({a[1]},{a[2]}) was {'accepted' if b[3] == 'A' else 'rejected'}; dim(dim+1)/2 = {tri(int(a[2]))} so it must be "
+                                 f"{'accepted' if want == 'A' else 'rejected'}", {"flat_size": int(a[1]), "full_dim": int(a[2]), "history": "valid reader of the same dimension first"})
+        lines, recs = lines[:n_main], recs[:n_main] if len(recs) >= n_main else recs
         ub = [l for l in se.splitlines() if "runtime error" in l]
         if rc != 0 or len(recs) != len(lines):
             # sanitizer abort / crash: the last BEGIN line names the input
